@@ -33,7 +33,7 @@ ASSUMPTIONS = [
     "explicit, documented refusals are accepted outcomes: Expectation on density matrices (emu-sv asserts 'Only expectation values of StateVectors')",
 ]
 CHUNK = 1
-PATHS = ["sv", "sv_slm", "sv_lindblad", "sv_spam", "mps", "mps_slm", "dmrg", "mps_noisy", "mps_spam"]
+PATHS = ["sv", "sv_slm", "sv_lindblad", "sv_spam", "mps", "mps_slm", "dmrg", "mps_noisy", "mps_spam", "mps_leak_spam"]
 
 
 def _specifiers():
@@ -112,20 +112,27 @@ def run_case(case):
     label = f"pulser-core {case['version']} path={path} observable={oname}"
     n = 2
     spec = {"coords": kit.SHAPES["pair"], "device": "mock", "basis": "rydberg", "pulses": [{"amp": ["const", 40, 5.0], "det": ["const", 40, 1.0], "phase": 0.2}]}
+    eig = ("r", "g")
+    if path == "mps_leak_spam":
+        # three-level atoms (leakage) together with a badly prepared atom: three atoms, the middle one dark in the first trajectory
+        n = 3
+        eig = ("r", "g", "x")
+        spec["coords"] = kit.SHAPES["bent3"]
     if path.endswith("_slm"):
         spec["slm"] = [1]  # masked atom with index >= 1: the trajectory's stacked (k, N, N) interaction matrix gets its rows / columns zeroed
     seq = kit.build_sequence(spec)
     ev = [0.5, 1.0]
-    noise = {"sv_lindblad": dict(relaxation_rate=0.5), "mps_noisy": dict(dephasing_rate=0.5), "sv_spam": dict(state_prep_error=0.3, p_false_pos=0.1, p_false_neg=0.1), "mps_spam": dict(state_prep_error=0.3, p_false_pos=0.1, p_false_neg=0.1)}.get(path)
+    noise = {"sv_lindblad": dict(relaxation_rate=0.5), "mps_noisy": dict(dephasing_rate=0.5), "sv_spam": dict(state_prep_error=0.3, p_false_pos=0.1, p_false_neg=0.1), "mps_spam": dict(state_prep_error=0.3, p_false_pos=0.1, p_false_neg=0.1),
+             "mps_leak_spam": dict(state_prep_error=0.3, with_leakage=True, eff_noise_rates=(0.2,), eff_noise_opers=(np.array([[0, 0, 0], [0, 0, 0], [1.0, 0, 0]]),))}.get(path)
     dm = path == "sv_lindblad"
     try:
         cls = getattr(mod, oname)
         if oname == "Fidelity":
             scls = (sv.DensityMatrix if dm else sv.StateVector) if mod is sv else m.MPS
-            ob = cls(state=scls.from_state_amplitudes(eigenstates=("r", "g"), amplitudes={"rg": 1.0}), evaluation_times=ev)
+            ob = cls(state=scls.from_state_amplitudes(eigenstates=eig, amplitudes={"rgr"[:n]: 1.0}), evaluation_times=ev)
         elif oname == "Expectation":
             ocls = sv.DenseOperator if mod is sv else m.MPO
-            ob = cls(ocls.from_operator_repr(eigenstates=("r", "g"), n_qudits=n, operations=[(1.0, [({"rr": 1.0}, {0})])]), evaluation_times=ev)
+            ob = cls(ocls.from_operator_repr(eigenstates=eig, n_qudits=n, operations=[(1.0, [({"rr": 1.0}, {0})])]), evaluation_times=ev)
         elif oname == "EntanglementEntropy":
             ob = cls(mps_site=0, evaluation_times=ev)
         elif oname == "BitStrings":
@@ -149,7 +156,8 @@ def run_case(case):
                 if path == "dmrg":
                     kw["solver"] = m.Solver.DMRG
                 cfg = m.MPSConfig(dt=10, observables=[ob], log_level=logging.CRITICAL, num_gpus_to_use=0, **kw)
-                with seams.pulser_np_random(uniform=[[0.99, 0.99], [0.99, 0.99]]), seams.module_random(impl_mod, seams.ScriptedRandom(default_uniform=0.4, default_choice=0)):
+                masks = [[0.99, 0.0, 0.99], [0.99, 0.99, 0.99]] if path == "mps_leak_spam" else [[0.99, 0.99], [0.99, 0.99]]
+                with seams.pulser_np_random(uniform=masks), seams.module_random(impl_mod, seams.ScriptedRandom(default_uniform=0.4, default_choice=0)):
                     res = m.MPSBackend(seq, config=cfg).run()
     except Exception as e:
         if oname == "Expectation" and dm and isinstance(e, AssertionError) and "StateVectors" in str(e):
